@@ -196,8 +196,8 @@ def _chunk(task):
 
 def PROOFS():
     from ..contracts import config_c, variable_c, terms_c, matrices_c
-    return [("vf.contracts.config_c", config_c.FUNCTIONS), ("vf.contracts.variable_c", variable_c.FUNCTIONS),
-            ("vf.contracts.terms_c", terms_c.FUNCTIONS),
+    return [("vf.contracts.config_c", config_c.FUNCTIONS), ("vf.contracts.variable_c", [f for f in variable_c.FUNCTIONS if f.endswith("eval_new_data_categoric")]),
+            ("vf.contracts.terms_c", ["formulae.terms.terms.GroupSpecificTerm.eval_new_data"]),
             ("vf.contracts.matrices_c", ["formulae.matrices.GroupEffectsMatrix.evaluate_new_data"])]
 
 
